@@ -56,6 +56,7 @@ type cfgIn struct {
 	storeHeaders, ccOut bool
 	kg, eg, iv, nx      bool // custom KeyGenerator / ExpirationGenerator / CacheInvalidator / Next configured
 	sy                  bool // storage yield: park at the end of Storage.Get(entry key) inside concurrent groups
+	own                 bool // generator only (not part of the case line): per-op header values in fixed slots
 	methods             []string
 }
 
@@ -481,6 +482,34 @@ type world struct {
 	goid  map[uint64]int  // goroutine → op it is serving
 	n1    []int           // storage calls the op has made in its first / second critical section
 	n2    []int
+	free  []*fasthttp.RequestCtx // connection contexts between requests (last in, first out), see acquireCtx
+	bufs  map[*fasthttp.RequestCtx][]byte // per connection: the buffer its origin handler builds response bodies in
+}
+
+// acquireCtx / releaseCtx: the requests of a history are served on RE-USED fasthttp.RequestCtx values, the way
+// a keep-alive connection (or fasthttp's ctx pool) serves one request after the other: Request and Response are
+// reset, their header and body buffers keep their memory and are overwritten by the next request. Whatever
+// the middleware keeps of a response without copying it is therefore overwritten by the next response served
+// on that context. Sequential requests all use one context; the threads of a concurrent group take what is
+// free (most recently released first).
+func (w *world) acquireCtx() *fasthttp.RequestCtx {
+	w.mu.Lock()
+	defer w.mu.Unlock()
+	if n := len(w.free); n > 0 {
+		c := w.free[n-1]
+		w.free = w.free[:n-1]
+		return c
+	}
+	return &fasthttp.RequestCtx{}
+}
+
+func (w *world) releaseCtx(c *fasthttp.RequestCtx) {
+	c.Request.Reset()
+	c.Response.Reset()
+	c.ResetUserValues()
+	w.mu.Lock()
+	w.free = append(w.free, c)
+	w.mu.Unlock()
 }
 
 // curGoid parses the current goroutine's id out of its stack header ("goroutine 123 [running]:").
@@ -552,7 +581,7 @@ func opID(c fiber.Ctx) int {
 
 func build(c cfgIn, ops []opIn) *world {
 	w := &world{cfg: c, ops: ops, ran: make([]bool, len(ops)), gate: make([]chan struct{}, len(ops)), park: make([]string, len(ops)),
-		goid: map[uint64]int{}, n1: make([]int, len(ops)), n2: make([]int, len(ops))}
+		goid: map[uint64]int{}, n1: make([]int, len(ops)), n2: make([]int, len(ops)), bufs: map[*fasthttp.RequestCtx][]byte{}}
 	conf := cache.Config{MaxBytes: uint(c.maxBytes), Expiration: time.Duration(c.expiration) * time.Second,
 		StoreResponseHeaders: c.storeHeaders, CacheControl: c.ccOut, Methods: c.methods}
 	if c.ext {
@@ -611,7 +640,15 @@ func build(c cfgIn, ops []opIn) *world {
 		for _, kv := range o.hdrs {
 			x.Set(kv[0], kv[1])
 		}
-		return x.Send([]byte(o.body))
+		// the origin handler builds its body in a buffer it re-uses for the next response on the same connection
+		// (fiber's Send hands the slice to the response without copying it: whoever keeps the response's body
+		// beyond the request must copy it)
+		rc := x.RequestCtx()
+		w.mu.Lock()
+		buf := append(w.bufs[rc][:0], o.body...)
+		w.bufs[rc] = buf
+		w.mu.Unlock()
+		return x.Send(buf)
 	})
 	w.h = app.Handler()
 	return w
@@ -625,7 +662,7 @@ func (w *world) serve(id int) (obs string) {
 		}
 	}()
 	o := w.ops[id]
-	var fctx fasthttp.RequestCtx
+	fctx := w.acquireCtx()
 	var req fasthttp.Request
 	req.Header.SetMethod(o.method)
 	if w.cfg.kg {
@@ -638,7 +675,8 @@ func (w *world) serve(id int) (obs string) {
 		req.Header.Set("Cache-Control", o.cc)
 	}
 	fctx.Init(&req, nil, nil)
-	w.h(&fctx)
+	w.h(fctx)
+	defer w.releaseCtx(fctx) // after the observation below has been copied out (not reached on a panic)
 	rs := &fctx.Response
 	x := "n"
 	switch string(rs.Header.Peek("X-Cache")) {
